@@ -57,3 +57,9 @@ def _c03_empty_gap(v):
     m = v["mech"]
     return v["oracle"] == "map-token" and m.get("step") == "ReplaceAroundStep" and m.get("empty_gap") is True \
         and m.get("adjacent_ranges") is True
+
+
+@predicate("C08-mirror-adjacent-pure-deletion")
+def _c08_mirror(v):
+    m = v["mech"]
+    return v["oracle"] == "mirror-roundtrip" and m.get("at_end_of_adjacent_pure_deletion") is True and m.get("assoc") == 1
